@@ -86,10 +86,52 @@ def fresh_dir(prefix="d"):
     return tempfile.mkdtemp(prefix=prefix, dir=scratch_root())
 
 
+_LINECOV = {"seen": set(), "dumped": 0, "on": False}
+
+
+def _linecov_start():
+    """VERIF_LINECOV=<dir>: development aid (never part of a verdict): records
+    which source lines of whoosh the check executes, so blind spots of the
+    drivers can be found (tools/linecov.py merges the per-process files)."""
+    if _LINECOV["on"] or not os.environ.get("VERIF_LINECOV"):
+        return
+    mon = sys.monitoring
+    tool = 3
+    try:
+        mon.use_tool_id(tool, "whverif-linecov")
+    except ValueError:
+        return
+    seen = _LINECOV["seen"]
+    prefix = os.path.realpath(REPO_SRC)
+
+    def on_line(code, line):
+        fn = code.co_filename
+        if fn.startswith(prefix) or fn.startswith(REPO_SRC):
+            seen.add((fn, line))
+        return mon.DISABLE
+
+    mon.register_callback(tool, mon.events.LINE, on_line)
+    mon.set_events(tool, mon.events.LINE)
+    _LINECOV["on"] = True
+
+
+def _linecov_dump():
+    if not _LINECOV["on"]:
+        return
+    seen = _LINECOV["seen"]
+    if len(seen) == _LINECOV["dumped"]:
+        return
+    _LINECOV["dumped"] = len(seen)
+    d = os.environ["VERIF_LINECOV"]
+    os.makedirs(d, exist_ok=True)
+    write_json(os.path.join(d, "lc_%d.json" % os.getpid()), sorted(seen))
+
+
 def setup_process(seed=0):
     """Called first in the main process and in every pool worker."""
     if sys.path[0] != REPO_SRC:
         sys.path.insert(0, REPO_SRC)
+    _linecov_start()
     os.environ[GUARD] = "1"
     import warnings
     warnings.filterwarnings("ignore", category=SyntaxWarning)
@@ -116,6 +158,7 @@ def _call(args):
             lab = "/".join(str(x) for x in (task if isinstance(task, (tuple, list)) else [task])
                            if isinstance(x, (str, int)))[:40]
             res["_task_s"] = (lab, time.time() - t0)
+        _linecov_dump()
         return res
     except Exception:
         return {"harness_error": traceback.format_exc(), "task": repr(task)[:2000]}
@@ -349,6 +392,7 @@ def write_json(path, obj):
 
 def finish(ctx, mod):
     ctx.close()
+    _linecov_dump()
     known = [e for e in load_known(ctx.pid) if e.get("status") == "known"]
     new = []
     known_hit = {}
